@@ -9,13 +9,14 @@ namespace Strengths
 /-- what `finishStep` (the tail of `Iterate`: `t += dt; SamplingStep(); CheckTMax()`) leaves of the object -/
 theorem finishStep_fields (S : CSim) (h : SimOK S) (x : Vec Rat) (hx : x.size = S.T.n * S.T.ns) (dt : Rat) (sc : Scratch)
     (hsc : ∃ slots nb, LayoutOK S.T S.L slots nb ∧ ScratchOK S.T S.L slots sc) (u : Nat) :
-    Ok (S.finishStep x dt sc u) (fun r => SimOK r.1 ∧ r.1.x = x ∧ r.1.T = S.T ∧ r.1.L = S.L ∧ r.1.dt = dt) := by
+    Ok (S.finishStep x dt sc u) (fun r => SimOK r.1 ∧ r.1.x = x ∧ r.1.T = S.T ∧ r.1.L = S.L ∧ r.1.dt = dt ∧
+      r.1.scratch = sc ∧ r.1.ucnt = u) := by
   unfold CSim.finishStep
   have hs : SmpOK { S.smp with done := false, t := S.smp.t + dt } (S.T.n * S.T.ns) := ⟨h.smp.ts, h.smp.recs, h.smp.recSize⟩
   have hstep := samplingStep_ok hs x hx
   rw [← h.conds] at hstep
   refine Ok.bind hstep (fun smp hsmp => ?_)
-  exact Ok.pure ⟨⟨h.tabs, hsc, hx, checkTMax_smpOK hsmp, h.conds⟩, rfl, rfl, rfl, rfl⟩
+  exact Ok.pure ⟨⟨h.tabs, hsc, hx, checkTMax_smpOK hsmp, h.conds⟩, rfl, rfl, rfl, rfl, rfl, rfl⟩
 
 /-- EULER (both layouts): `Iterate()` of `Euler3D` / `EulerGraph` on the checked object is `eulerStep` of the core model -/
 theorem euler_iterate_refines (o : Oracles) (S : CSim) (h : SimOK S) (e : EngIn) (hR : Refines e S.T S.L)
@@ -34,7 +35,7 @@ theorem euler_iterate_refines (o : Oracles) (S : CSim) (h : SimOK S) (e : EngIn)
   refine Ok.bind (computeDxdt_val hR S.x d h.x hd) (fun d' hd' => ?_)
   refine Ok.bind (applyDxdt_val S.dt S.x d' h.x hd'.1) (fun x' hx' => ?_)
   refine Ok.mono (finishStep_fields S h x' hx'.1 S.dt (.euler d') ⟨slots, nb, hL, .euler d' hd'.1⟩ S.ucnt) (fun r hr => ?_)
-  obtain ⟨hok, hx, hT, hLe, hdt⟩ := hr
+  obtain ⟨hok, hx, hT, hLe, hdt, _, _⟩ := hr
   refine ⟨hok, by rw [hT, hLe]; exact hR, hdt, fun i s hi hs => ?_⟩
   rw [hT, hx]
   show x'.get (i * S.T.ns + s) = S.x.get (i * S.T.ns + s) + eulerDxdt e (absState S.T.ns S.x) i s * S.dt
